@@ -335,16 +335,16 @@ Theorem WeightedL1_is_penalized_spec (weights : list R) n :
 Proof. reflexivity. Qed.
 
 Theorem WeightedL1_value_spec alpha (weights w : list R) :
-  @WeightedL1_value R _ alpha weights w = Ok (alpha * rsum (vmap2 (fun x y => Rabs x * y) w weights)).
+  @WeightedL1_value R _ alpha weights false w = Ok (Fin (alpha * rsum (vmap2 (fun x y => Rabs x * y) w weights))).
 Proof.
-  unfold WeightedL1_value, ret. f_equal. rsimp. rewrite vsum_rsum. f_equal. f_equal.
+  unfold WeightedL1_value, ret. cbn [andb]. f_equal. f_equal. rsimp. rewrite vsum_rsum. f_equal. f_equal.
   unfold vmap. revert weights. induction w; destruct weights; simpl; auto. f_equal. apply IHw.
 Qed.
 
 Theorem WeightedL1_unpenalized_contributes_zero alpha (weights w : list R) (j : nat) x :
   (j < length w)%nat -> length w = length weights -> nth j weights 0 = 0 ->
-  @WeightedL1_value R _ alpha weights (set_nth w j x) = @WeightedL1_value R _ alpha weights w.
+  @WeightedL1_value R _ alpha weights false (set_nth w j x) = @WeightedL1_value R _ alpha weights false w.
 Proof.
-  intros Hj Hl Hz. rewrite !WeightedL1_value_spec. f_equal. f_equal.
+  intros Hj Hl Hz. rewrite !WeightedL1_value_spec. f_equal. f_equal. f_equal.
   rewrite (rsum_vmap2_set_nth (fun x y => Rabs x * y)) by assumption. rewrite Hz. lra.
 Qed.
